@@ -489,6 +489,16 @@ func (w *World) BuildBlock(h uint32) *BlockSpec {
 			break
 		}
 	}
+	// a validly signed transfer of more than 2^63-1 units (nobody holds that; the amount does not
+	// fit the database's integer type)
+	if h >= a.TxConv+4 && h%9 == 4 {
+		if u := w.G.Users[int(h)%len(w.G.Users)]; !(u.IsE && h <= a.RCDE) {
+			var o factom.FAAddress
+			r.Read(o[:])
+			b.TX = append(b.TX, w.G.Batch(h, u, []fat2.Transaction{Transfer(u.FA(), fat2.PTickerUSD, fat2.AddressAmountTuple{Address: o, Amount: uint64(1)<<63 + uint64(h)})}))
+			w.Rep.Count("batch:amount-above-int64")
+		}
+	}
 	nt := r.Intn(5)
 	if nt > 3 {
 		nt = 0
